@@ -133,7 +133,8 @@ def gen_case(rng, focus=()):
     def p(feature, base):
         return rng.random() < (0.75 if feature in focus else base)
     paired = p("paired", 0.35)
-    argv = ["--no-index"]
+    # half of the command lines leave cutadapt's default on: indexable anchored adapters are collected into an adapter index
+    argv = ["--no-index"] if rng.random() < 0.5 else []
     n1 = rng.randint(0, 3) if not p("adapters", 0.0) else rng.randint(1, 3)
     n2 = rng.randint(0, 2) if paired else 0
     pair_adapters = paired and p("pair_adapters", 0.1)
@@ -141,11 +142,19 @@ def gen_case(rng, focus=()):
         n1 = n2 = rng.randint(1, 4)
     plain1, plain2 = [], []
     allow_linked = not pair_adapters and "nolinked" not in focus
+    anchored_mode = "--no-index" not in argv and rng.random() < 0.6 and None or None
+    if "--no-index" not in argv and rng.random() < 0.6:
+        anchored_mode = rng.choice(["g", "a"])      # mostly anchored adapters of one kind, so that an index is built
     for n, letter, up in ((n1, "a", False), (n2, "b", True)):
         made = []
         for i in range(n):
             d = dup_adapter_spec(rng, f"{letter}{i}", rng.choice(made)) if made and rng.random() < 0.3 else None
             fl, spec = d or gen_adapter_spec(rng, f"{letter}{i}", allow_linked)
+            if anchored_mode and "..." not in spec and rng.random() < 0.85:
+                nm, body = spec.split("=", 1)
+                core = body.split(";")[0].strip("^$X")
+                params = "".join(";" + p_ for p_ in body.split(";")[1:] if p_ != "rightmost")
+                fl, spec = ("-g", f"{nm}=^{core}{params}") if anchored_mode == "g" else ("-a", f"{nm}={core}${params}")
             made.append((fl, spec))
             argv += [fl.upper() if up else fl, spec]
     if pair_adapters:
@@ -423,7 +432,7 @@ def model_json(case):
         if len(v) == 1:
             v = [v[0], v[0]]
         return v
-    o = dict(paired=paired, cut=args.cut, cut2=args.cut2, nextseq_trim=args.nextseq_trim, quality_base=args.quality_base,
+    o = dict(no_index=not args.index, paired=paired, cut=args.cut, cut2=args.cut2, nextseq_trim=args.nextseq_trim, quality_base=args.quality_base,
              quality_cutoff=cutoff(args.quality_cutoff), quality_cutoff2=cutoff(args.quality_cutoff2), pair_adapters=args.pair_adapters,
              action=args.action, times=args.times, revcomp=args.reverse_complement,
              rename=(tokens_json(args.rename) if args.rename and args.rename != "{header}" else None), rename_given=bool(args.rename),
